@@ -235,6 +235,16 @@ def run_driving_pipe(pipe, coroutine, name=None):
             # on its own (eg. by awaiting something that was cancelled), and
             # the peer is still waiting for a terminal event.
             pipe.add_exception(e)
+        except (KeyboardInterrupt, SystemExit, GeneratorExit):
+            # These are not about the coroutine but about the process or the
+            # task, and asyncio treats them accordingly.
+            raise
+        except BaseException as e:
+            # Exceptions that are deliberately not derived from Exception
+            # (eg. the outcome exceptions of test frameworks) end the coroutine
+            # like any other, and a task that just stored them would leave the
+            # pipe without its terminal event.
+            pipe.add_exception(e)
 
     task = asyncio.create_task(
         wrapped(),
